@@ -17,6 +17,11 @@ Executable model of `/repo/source/src/function_parser/`:
                  the correspondence harness `/verif/harness/h_parser.cpp`);
 * `driver`     — line protocol for `symdrv` (model name `expr`).
 
+Lemma files: `ExprCLemmas` (the C reader reads back what the emitter writes), `ExprEmitLemmas` (emitter
+against interpreter), `ExprParseLemmas` (termination, well-formed trees), `ExprSurface` /
+`ExprSurfaceLemmas` / `ExprUsualLemmas` (the grammar of the parser and the usual grammar).  Theorems:
+`Props/C03.lean`.
+
 Conventions of the model (see also the doc comments):
 
 * strings are `List Char`; the real code works on bytes, which is the same for valid UTF-8 because every
@@ -48,7 +53,7 @@ inductive Err
   | exoticNumber
   /-- the generated table contains a name the model has no semantics for -/
   | unknownOperator
-  /-- the fuel of `parseCore` ran out (proved impossible, `parse_ne_fuel`) -/
+  /-- the fuel of `parseCore` ran out (proved impossible: `parse_ne_fuel`, `C03_total`) -/
   | fuel
   /-- the `while(open)` loop of `parseThis` never terminates -/
   | hang
@@ -92,6 +97,8 @@ def Err.kind : Err → String
   | .intTrunc => "int-trunc"
   | .intDiv0 => "int-div0"
   | .range => "range"
+
+deriving instance DecidableEq for Except
 
 /-! ## Operator table -/
 
@@ -324,34 +331,39 @@ def selectFactory : List Factory → List Char → Option (Factory × Nat)
     | some pos => if f.isBinary || pos = 0 then some (f, pos) else selectFactory fs e
     | none => selectFactory fs e
 
-/-- `parseThis`, with fuel (`parse` supplies `length + 1`, which is enough: `parseCore_ne_fuel`).
+/-- `parseThis` behind the bracket prologue; `rec` = `parseThis` for the operands.
 The two operands of `setBinary(parseThis(left), parseThis(right))` are evaluated right to left (gcc,
 x86-64), which decides which error is reported when both operands are faulty. -/
+def parseBody (known : String → Bool) (rec : List Char → Except Err Tree) (expr : List Char) :
+    Except Err Tree :=
+  match selectFactory factories expr with
+  | none => valueFromString known expr
+  | some (f, pos) =>
+    let name := String.ofList f.name
+    if f.isBinary then
+      if name = "-" && pos = 0 then do
+        let a ← rec (expr.drop 1)
+        .ok (.neg a)
+      else
+        match BinOp.ofName name with
+        | none => .error .unknownOperator
+        | some op => do
+          let b ← rec (expr.drop (pos + f.name.length))
+          let a ← rec (expr.take pos)
+          .ok (.bin op a b)
+    else
+      match Fn.ofName name with
+      | none => .error .unknownOperator
+      | some fn => do
+        let a ← rec (expr.drop f.name.length)
+        .ok (.fn fn a)
+
+/-- `parseThis`, with fuel (`parse` supplies `length + 1`, which is enough: `parseCore_ne_fuel`). -/
 def parseCore (known : String → Bool) : Nat → List Char → Except Err Tree
   | 0, _ => .error .fuel
   | fuel+1, expression => do
     let expr ← stripBrackets expression
-    match selectFactory factories expr with
-    | none => valueFromString known expr
-    | some (f, pos) =>
-      let name := String.ofList f.name
-      if f.isBinary then
-        if name = "-" && pos = 0 then do
-          let a ← parseCore known fuel (expr.drop 1)
-          .ok (.neg a)
-        else
-          match BinOp.ofName name with
-          | none => .error .unknownOperator
-          | some op => do
-            let b ← parseCore known fuel (expr.drop (pos + f.name.length))
-            let a ← parseCore known fuel (expr.take pos)
-            .ok (.bin op a b)
-      else
-        match Fn.ofName name with
-        | none => .error .unknownOperator
-        | some fn => do
-          let a ← parseCore known fuel (expr.drop f.name.length)
-          .ok (.fn fn a)
+    parseBody known (parseCore known fuel) expr
 
 /-- `FunctionParser::parse(expression)` with the declared symbol names `syms`. -/
 def parse (syms : List String) (s : String) : Except Err Tree :=
